@@ -204,6 +204,7 @@ class Ctx:
         if failed_tables:
             self.extra["table_culprits"] = table_culprits(self.facts, failed_tables)
             self.extra["build_output_tail"] = self.extra.get("build_output_tail", "") + "\n--- classes / facts that falsify the table obligations ---\n" + json.dumps(self.extra["table_culprits"], indent=1)[:3000]
+        self.prove_done = True
         return not self.broken
 
     # -- finish -------------------------------------------------------------------------------------
@@ -307,7 +308,19 @@ def main(argv=None):
     except lean.InfraError as e:
         print(f"[{prop}] infrastructure error: {e}", file=sys.stderr)
         return 2
-    except Exception:
+    except Exception as e:
         traceback.print_exc()
-        print(f"[{prop}] harness crashed (infrastructure)", file=sys.stderr)
-        return 2
+        import subprocess
+        import concurrent.futures.process as _cfp
+        infra = isinstance(e, (OSError, MemoryError, subprocess.SubprocessError, _cfp.BrokenProcessPool, ImportError))
+        if infra or not getattr(ctx, "prove_done", False):
+            print(f"[{prop}] harness crashed (infrastructure)", file=sys.stderr)
+            return 2
+        # the proof obligations were dealt with and a suite then failed while it was handling what the implementation returned: the correspondence can no longer
+        # be carried out on this tree (on the unchanged tree every suite runs through). That is a broken correspondence, not a crash: the decision procedure
+        # reports it with the failing inputs found so far, or as no-failing-input-found, naming the suite code that could not go on.
+        tb = traceback.extract_tb(e.__traceback__)
+        where = next((f"{Path(fr.filename).name}:{fr.lineno} in {fr.name}" for fr in reversed(tb) if "/pvh/" in fr.filename), "?")
+        ctx.broken.append(f"the correspondence suite could not process the implementation's behaviour on this tree: {type(e).__name__}: {e} (at {where})")
+        print(f"[{prop}] a suite stopped on an implementation output it cannot handle — reported as a broken correspondence", file=sys.stderr)
+        return ctx.finish(level="proof", assumptions=getattr(mod, "ASSUMPTIONS", []))
